@@ -368,6 +368,7 @@ package account
 //@   loop 0: invariant forall k string :: visited(k) ==> !has(ao.dirtyStorage, k)
 //@   loop 0: invariant forall k string :: has(ao.dirtyStorage, k) ==> old(has(ao.dirtyStorage, k))
 //@   loop 0: invariant forall k string :: old(has(ao.dirtyStorage, k)) && !has(ao.dirtyStorage, k) ==> @select(ghost(flushed), bytes(k))
+//@   loop 0: commutes on ghost(flushed), entries(ao.dirtyStorage), entries(ao.cachedStorage)
 //@   ensures [emptied] forall k string :: !has(ao.dirtyStorage, k)
 //@   ensures [applied] forall k string :: old(has(ao.dirtyStorage, k)) ==> @select(ghost(flushed), bytes(k))
 //@   modifies ao.trie, ao.dbErr, entries(ao.dirtyStorage), ghost(flushed)
